@@ -23,7 +23,7 @@ namespace OP2Utility::Stream
 		std::size_t bytesTransferred = (size < bytesLeft) ? size : bytesLeft;
 
 		std::memcpy(buffer, streamBuffer + position, bytesTransferred);
-		position += size;
+		position += bytesTransferred;
 
 		return bytesTransferred;
 	}
